@@ -78,8 +78,10 @@ func applyOp(ctx context.Context, s Store, o storeOp) (string, error) {
 		v, m, err := s.FetchConsumerOffset(ctx, o.group, o.topic, o.part)
 		return fmt.Sprintf("%d %q", v, m), err
 	case "PutConsumerGroup":
-		g := &metadatapb.ConsumerGroup{GroupId: o.group, State: "stable", GenerationId: int32(o.val), Leader: "m1", ProtocolType: "consumer",
-			Members: map[string]*metadatapb.GroupMember{"m1": {Subscriptions: []string{o.topic}, Assignments: []*metadatapb.Assignment{{Topic: o.topic, Partitions: []int32{o.part}}}}}}
+		g := &metadatapb.ConsumerGroup{GroupId: o.group, State: "stable", GenerationId: int32(o.val), Leader: "m1", ProtocolType: "consumer", Protocol: "range",
+			RebalanceTimeoutMs: int32(1000 * (1 + o.val%7)),
+			Members: map[string]*metadatapb.GroupMember{"m1": {ClientId: "cl-" + o.meta, ClientHost: "10.0.0.1", HeartbeatAt: "2026-01-01T00:00:0" + fmt.Sprint(o.val%10) + "Z", SessionTimeoutMs: int32(500 * (1 + o.val%9)),
+				Subscriptions: []string{o.topic}, Assignments: []*metadatapb.Assignment{{Topic: o.topic, Partitions: []int32{o.part}}}}}}
 		return "", s.PutConsumerGroup(ctx, g)
 	case "FetchConsumerGroup":
 		g, err := s.FetchConsumerGroup(ctx, o.group)
@@ -113,10 +115,10 @@ func renderGroup(g *metadatapb.ConsumerGroup) string {
 	}
 	var ms []string
 	for id, m := range g.Members {
-		ms = append(ms, fmt.Sprintf("%s:%v:%v", id, m.Subscriptions, m.Assignments))
+		ms = append(ms, fmt.Sprintf("%s:%v:%v:client=%s@%s:hb=%s:session=%d", id, m.Subscriptions, m.Assignments, m.ClientId, m.ClientHost, m.HeartbeatAt, m.SessionTimeoutMs))
 	}
 	sort.Strings(ms)
-	return fmt.Sprintf("%s gen=%d state=%s leader=%s type=%s members=%v", g.GroupId, g.GenerationId, g.State, g.Leader, g.ProtocolType, ms)
+	return fmt.Sprintf("%s gen=%d state=%s leader=%s type=%s/%s rebalance=%d members=%v", g.GroupId, g.GenerationId, g.State, g.Leader, g.ProtocolType, g.Protocol, g.RebalanceTimeoutMs, ms)
 }
 
 func renderConfig(c *metadatapb.TopicConfig) string {
@@ -189,8 +191,14 @@ func observeM(ctx context.Context, s Store, topics, groups []string, maskSlash b
 func (w *w3) differential(op simrt.Op) {
 	r := rand.New(rand.NewPCG(uint64(op.A), 99))
 	n := w.nodes[0]
-	topics := []string{"orders", "pay", "a.b", "ghost"}
+	topics := []string{"orders", "pay", "a.b", "ghost", "orders-v2", "orders.x"} // two of them extend another's name
+	if r.IntN(2) == 0 {
+		topics = []string{"orders", "orders-v2", "orders.x"} // only the name family: prefix handling
+	}
 	groups := []string{"g1", "g/x", "g:y"}
+	if r.IntN(3) == 0 {
+		groups = []string{"g/x", "g//x", "g/./x"} // distinct ids that a path-cleaning key builder would merge
+	}
 	kinds := []string{"CreateTopic", "CreateTopic", "DeleteTopic", "CreatePartitions", "UpdateOffsets", "UpdateOffsets", "NextOffset", "CommitConsumerOffset", "CommitConsumerOffset",
 		"FetchConsumerOffset", "PutConsumerGroup", "FetchConsumerGroup", "DeleteConsumerGroup", "FetchTopicConfig", "UpdateTopicConfig", "Metadata"}
 	var history []storeOp
@@ -231,6 +239,17 @@ func (w *w3) differential(op simrt.Op) {
 				_, _ = applyOp(context.Background(), pre, h)
 			}
 			if observeM(context.Background(), pre, topics, groups, true) == es {
+				// looks "not applied" - unless the effect is simply not observable right now (an offset
+				// written for a topic that does not exist yet shows only once the topic is created)
+				post := NewInMemoryStore(baseMeta())
+				for _, h := range history {
+					_, _ = applyOp(context.Background(), post, h)
+				}
+				_, _ = applyOp(context.Background(), post, o)
+				if isMutation(o.kind) && observeM(context.Background(), post, topics, groups, true) == es && !topicInModel(pre, o.topic) {
+					w.sim.Probe("c17.ambiguous-stop")
+					return
+				}
 				mem = pre
 				continue
 			}
@@ -269,6 +288,27 @@ func (w *w3) differential(op simrt.Op) {
 			return
 		}
 	}
+}
+
+func isMutation(kind string) bool {
+	switch kind {
+	case "NextOffset", "FetchConsumerOffset", "FetchConsumerGroup", "FetchTopicConfig", "Metadata":
+		return false
+	}
+	return true
+}
+
+func topicInModel(s *InMemoryStore, topic string) bool {
+	m, err := s.Metadata(context.Background(), []string{topic})
+	if err != nil || m == nil {
+		return false
+	}
+	for _, t := range m.Topics {
+		if t.Topic != nil && *t.Topic == topic && t.ErrorCode == 0 {
+			return true
+		}
+	}
+	return false
 }
 
 func firstDiff(a, b string) string {
